@@ -32,6 +32,7 @@ def run(repo, run, tier):
     increment(repo, run)
     newton(repo, run)
     splitting_clock(repo, run)
+    stage_tolerance(repo, run)
 
 
 # ------------------------------------------------------------------------------------------------
@@ -280,11 +281,11 @@ def compute_step_part(repo, run, rid, rule_id="C02.2"):
     return fn, P, roles, loop, canon, env, call
 
 
-def stage_args(repo, run):
-    rid = run.rule("C02.2", "stage arguments: rhs is evaluated at (t0 + h*c_i, y0 + h*sum_j a_ij k_j) with the sum over the stage axis of "
+def stage_args(repo, run, rule_id="C02.2"):
+    rid = run.rule(rule_id, "stage arguments: rhs is evaluated at (t0 + h*c_i, y0 + h*sum_j a_ij k_j) with the sum over the stage axis of "
                             "the stage array, the result stored at stage i, for all stages (compute_step, algebraic_system, "
                             "high-precision Jacobian branch)", floor=9)
-    fn, P, roles, loop, canon, env, call = compute_step_part(repo, run, rid)
+    fn, P, roles, loop, canon, env, call = compute_step_part(repo, run, rid, rule_id=rule_id)
 
     # algebraic_system / jacobian
     for meth in ("algebraic_system", "algebraic_system_jacobian"):
@@ -314,11 +315,11 @@ def stage_args(repo, run):
         ok = gt == wt
         run.judged(rid, "%s time argument: %s" % (meth, gt.canon()), ok=ok)
         if not ok:
-            run.report("C02.2", ITY, c.args[0], "stage time is %s, expected t0 + h*c_i = %s" % (gt.canon(), wt.canon()))
+            run.report(rule_id, ITY, c.args[0], "stage time is %s, expected t0 + h*c_i = %s" % (gt.canon(), wt.canon()))
         ok = gy in wy
         run.judged(rid, "%s state argument: %s" % (meth, gy.canon()), ok=ok)
         if not ok:
-            run.report("C02.2", ITY, c.args[1], "stage state is %s, expected %s" % (gy.canon(), wy[0].canon()))
+            run.report(rule_id, ITY, c.args[1], "stage state is %s, expected %s" % (gy.canon(), wy[0].canon()))
         if meth == "algebraic_system":
             # residual F(k) = k - f(...): return reshape(K - stack([...], axis=-1), (-1,))
             rets = [st for st in f2.body if isinstance(st, ast.Return)]
@@ -344,7 +345,7 @@ def stage_args(repo, run):
                                 okres = True
             run.judged(rid, "algebraic_system residual is K - stack([f(stage i) for rows], axis=-1)", ok=okres)
             if not okres:
-                run.report("C02.2", ITY, f2, "the stage system is not F(k) = k - f(t0 + c_i h, y0 + h sum_j a_ij k_j) over all rows of the table",
+                run.report(rule_id, ITY, f2, "the stage system is not F(k) = k - f(t0 + c_i h, y0 + h sum_j a_ij k_j) over all rows of the table",
                            text="algebraic_system residual")
 
 
@@ -740,3 +741,49 @@ def splitting_clock(repo, run):
         F = Poly.atom("F%d" % s)
         want_t = want_t + h * Poly.atom("T[%d,%d]" % (s, dcol))
         want_y = want_y + h * F * (Poly.atom("T[%d,%d]" % (s, dcol)) * Poly.atom("self.drift_mask") + Poly.atom("T[%d,%d]" % (s, kcol)) * Poly.atom("self.kick_mask"))
+
+
+def stage_tolerance(repo, run, rule_id="C02.6"):
+    """'to the nonlinear-solver tolerance for implicit ones': the tolerance the stage equations are solved and ACCEPTED to is atol + rtol*|y| (times a constant
+    <= 1): absolute part from atol, relative part rtol times the size of the state.  With the roles exchanged a loose rtol becomes the absolute tolerance."""
+    rid = run.rule(rule_id, "the tolerance handed to the stage solver and used in the acceptance test is k*(atol + rtol*scale(y0)), 0 < k <= 1, as a polynomial normal form "
+                            "(max/abs wrappers transparent)", floor=1)
+    step = repo.get(ITY, extract.RK + ".step")
+    P = [a.arg for a in step.args.args]
+    env = inline_locals(step)
+    roles = {P[3]: "y0"}
+
+    class Strip(ast.NodeTransformer):
+        def visit_Call(self, n):
+            self.generic_visit(n)
+            if fname(n) in ("max", "amax", "abs", "absolute", "linalg.norm", "norm") and n.args:
+                return n.args[0]
+            return n
+    # the tolerance: the `tol=` argument of the nonlinear_roots call and the bound in `prec < <tol>`
+    nr = [c for c in ast.walk(step) if isinstance(c, ast.Call) and (dotted(c.func) or "").endswith("nonlinear_roots")]
+    if len(nr) != 1:
+        raise AnalysisError("step(): nonlinear_roots call not found")
+    tol_arg = next((k.value for k in nr[0].keywords if k.arg == "tol"), None)
+    sites = []
+    if tol_arg is not None:
+        sites.append(("solver tolerance", tol_arg))
+    for cmp_ in [x for x in ast.walk(step) if isinstance(x, ast.Compare) and len(x.ops) == 1 and isinstance(x.ops[0], (ast.Lt, ast.LtE)) and isinstance(x.left, ast.Name) and x.left.id == "prec"]:
+        sites.append(("acceptance bound", cmp_.comparators[0]))
+    if not sites:
+        raise AnalysisError("step(): tolerance sites (tol= of the solver call, `prec < tol` acceptance) not found")
+    c = Canon(rename=roles, env=env)
+    atol, rtol, y0 = Poly.atom("self.atol"), Poly.atom("self.rtol"), Poly.atom("y0")
+    for what, node in sites:
+        n2 = extract._subst(node, env)
+        stripped = Strip().visit(n2)
+        ast.fix_missing_locations(stripped)
+        p = Canon(rename=roles, env={}).poly(stripped)
+        ok = False
+        for num, den in ((1, 2), (1, 1), (1, 4), (3, 4), (9, 10), (1, 10)):
+            kk = Poly.const(Fraction(num, den))
+            if p == kk * (atol + rtol * y0):
+                ok = True
+        run.judged(rid, "%s: %s" % (what, p.canon()), ok=ok)
+        if not ok:
+            run.report(rule_id, ITY, node, "the %s of the implicit stage equations is %s, not k*(atol + rtol*|y|): the stages are solved (and accepted) to a tolerance in which "
+                                           "atol and rtol do not play their roles (e.g. exchanged: a loose rtol becomes the absolute tolerance)" % (what, p.canon()))
